@@ -79,7 +79,7 @@ func init() {
 		Level: "exploration",
 		Rule: "strict ping-pong on the bidirectional method: the simulated client delivers request k+1 only after it has parsed response k out of the bytes the response writer made visible (visible = flushed), " +
 			"the scripted handler writes response k only after it has read request k completely (reading and writing on one goroutine, or on two as reverse proxies do); 1..50 rounds (thorough up to 500), payloads 0..64 KiB, gRPC / gRPC-Web / Connect-streaming clients x streaming targets x " +
-			"same/different codec and compression, handler calling Flush itself or never, all scheduling policies and read/delivery segmentations; oracle: all rounds complete and the outcome is OK; quiescence with parked tasks is a deadlock. " +
+			"same/different codec and compression, handler calling Flush itself or never, five flavours of the server's response writer (Flusher, FlushError only, wrapped with Unwrap, buffering middleware with Flush and Unwrap), all scheduling policies and read/delivery segmentations; oracle: all rounds complete and the outcome is OK; quiescence with parked tasks is a deadlock. " +
 			"distinct = (form>target/request path/response path/flush mode/round bucket, schedule hash); non-trivial = the transcoder is in the data path",
 		Gen: func(c *Chooser, tier string) *Plan {
 			svc := genService(c, "sim")
